@@ -19,6 +19,7 @@ import (
 	"errors"
 	"net"
 	"sync"
+	"sync/atomic"
 	"time"
 
 	"github.com/caddyserver/caddy/v2"
@@ -72,7 +73,11 @@ type Connection struct {
 	frozenOffset int
 	matching     bool
 
-	bytesRead, bytesWritten uint64
+	bytesRead uint64
+	// bytesWritten is atomic because several goroutines may write to the
+	// connection at the same time (the proxy handler copies from every
+	// upstream peer concurrently)
+	bytesWritten atomic.Uint64
 }
 
 var ErrConsumedAllPrefetchedBytes = errors.New("consumed all prefetched bytes")
@@ -118,7 +123,7 @@ func (cx *Connection) Read(p []byte) (n int, err error) {
 
 func (cx *Connection) Write(p []byte) (n int, err error) {
 	n, err = cx.Conn.Write(p)
-	cx.bytesWritten += uint64(n)
+	cx.bytesWritten.Add(uint64(n))
 	return
 }
 
@@ -129,13 +134,13 @@ func (cx *Connection) Write(p []byte) (n int, err error) {
 // expected to read from cx.
 func (cx *Connection) Wrap(conn net.Conn) *Connection {
 	wrapped := &Connection{
-		Conn:         conn,
-		Context:      cx.Context,
-		Logger:       cx.Logger,
-		matching:     cx.matching,
-		bytesRead:    cx.bytesRead,
-		bytesWritten: cx.bytesWritten,
+		Conn:      conn,
+		Context:   cx.Context,
+		Logger:    cx.Logger,
+		matching:  cx.matching,
+		bytesRead: cx.bytesRead,
 	}
+	wrapped.bytesWritten.Store(cx.bytesWritten.Load())
 	// conn reads through cx, so any bytes still unread in cx's buffer will be
 	// delivered by cx itself; handing them to the new Connection as well would
 	// make them appear twice in the stream. Only a drained buffer is reused.
